@@ -52,6 +52,15 @@ def cases(tier, seed):
                     s = dict(st)
                     s.update({'op': op, 'g': g, 'target': target})
                     cs.append({'scen': 'op_history', 's': s})
+    # shape level: routines that need a factorization (values are havoc): operands keep core list, core tensors and metadata
+    SH = {'shim': 'shape', 'scalar_mode': 'A', 'logic': None, 'setup': {'factor_mode': 'havoc'}, 'max_paths': 250 if not th else 1500}
+    for name in ('round', 'round_rmax', 'reshape_merge', 'permute_rev', 'qtt_to_tens_all', 'dmrg_hadamard', 'dmrg_hadamard_guess', 'fast_matvec'):
+        for d in ((2,) if not th else (2, 3)):
+            for ttm in ((False, True) if name in ('round', 'round_rmax', 'permute_rev') else (False,)):
+                ss = {'op': name, 'd': d, 'B': 2 if 'dmrg' in name or name == 'fast_matvec' else 3}
+                if ttm:
+                    ss['ttm'] = True
+                cs.append({'scen': 'op_preserve_shape', 's': ss, 'opts': SH})
     return cs
 
 
@@ -62,7 +71,7 @@ def opts(tier):
 
 def sig(case, label):
     s = case['s']
-    base = '%s:%s:%s' % (case['scen'], s['op'], 'ttm' if 'M' in s else 'tt')
+    base = '%s:%s:%s' % (case['scen'], s['op'], 'ttm' if ('M' in s or s.get('ttm')) else 'tt')
     if case['scen'] == 'op_history':
         base += ':%s:%s' % (s['g'], s['target'])
     lab = label.rstrip('0123456789').rstrip('_') if label.startswith(('meta_', 'value_', 'same_core_list_')) else label
@@ -80,8 +89,9 @@ def meta(tier):
         'bounds': 'every operation of the catalogue tv/scen/ops.py (%d entries) and every operand position, on TT tensors and TT matrices of order 1..3 (thorough 4), '
                   'sizes <= 3 incl. singleton modes, ranks <= 3; two-step histories r=f(x) for %d view-producing operations followed by set_core/reduce_dims on x or r; '
                   'all entries symbolic' % (len(OPS), len(VIEW_OPS)),
-        'outside': 'iterative routines (fast_matvec, dmrg_hadamard, amen_*, division, cross) and factorization-based operations (round, reshape, permute, QTT) are '
-                   'covered separately where the factorization model reaches them (see DESIGN); user-level writes into result.cores[k] tensors',
+        'outside': 'values of operands across factorization-based routines (round, reshape, permute, QTT, DMRG products incl. initial guesses) are checked at the shape level only '
+                   '(same core list, same core tensor objects, same metadata; value preservation of round/reshape/permute/to_qtt is decided in C02/C10); AMEn, division and cross routines; '
+                   'user-level writes into result.cores[k] tensors',
         'assumptions': ['numpy-view storage model of symtorch mirrors torch views/in-place writes (validated against real torch per run)',
                         'z3 sat/unsat verdicts; unknown/time-out counted inconclusive'],
         'tv_max': 80,
